@@ -390,10 +390,11 @@ inductive Strategy where
   | wrongCommit (which : List Nat)
   /-- the listed slots open the side the challenge did NOT ask for -/
   | wrongSide (which : List Nat)
-  /-- every nonce `r` has a zero first repr byte (its integer encoding is short) -/
-  | shortR
-  /-- every `x + r` has a zero first repr byte -/
-  | shortXR
+  /-- every nonce `r` has (at least) `k` zero bytes at the front of its repr, i.e. its integer encoding — the repr read
+      big-endian, on both curves — is `k` bytes short (`k = 32`: every nonce is 0) -/
+  | shortR (k : Nat)
+  /-- every `x + r` has `k` zero bytes at the front of its repr -/
+  | shortXR (k : Nat)
   /-- ADAPTIVE forger against a verifier whose challenge hash omits the commitments `g_r`: it uses only the ENCODING of `Q`
       (never `x`), fixes `enc_r = Enc(a)`, `enc_x_r = Enc(b)` for arbitrary `a, b`, computes the challenge over everything
       except the `g_r`, and only then chooses `g_r = a·G` (bit 0, opens `a`) resp. `g_r = b·G − Q` (bit 1, opens `b`).
@@ -425,11 +426,12 @@ inductive Strategy where
   | openPlusOrder (which : List Nat)
 deriving DecidableEq, Repr
 
-/-- a nonce whose repr starts with a zero byte (and is canonical): 32 tape bytes, first forced to 0, and for the
-    little-endian curve the top nibble cleared (so the value is below 2^252 < ℓ) -/
-def shortScalar (cp : CurveParams) (t : Tape) : Nat × Tape :=
+/-- a scalar whose repr starts with `k ≥ 1` zero bytes (and is canonical): 32 tape bytes, the first `k` forced to 0, and
+    for the little-endian curve the top nibble cleared (so the value is below 2^252 < ℓ) -/
+def shortScalar (cp : CurveParams) (k : Nat) (t : Tape) : Nat × Tape :=
   let (b, t') := Tape.take t 32
-  let b := (b ++ List.replicate (32 - b.length) 0).set 0 0
+  let b := b ++ List.replicate (32 - b.length) 0
+  let b := List.replicate (min k 32) 0 ++ b.drop (min k 32)
   let b := if cp.scalarBE then b else b.set 31 (b.getD 31 0 % 16)
   (cp.reprVal b % cp.order, t')
 
@@ -457,8 +459,8 @@ def advSlots (O : Query → m Bytes) (cp : CurveParams) (x : Nat) (key : Bytes) 
   | k+1, i, tape => do
       let (r, tape) :=
         match st with
-        | .shortR => shortScalar cp tape
-        | .shortXR => let (t, tp) := shortScalar cp tape; ((t + (cp.order - x % cp.order)) % cp.order, tp)
+        | .shortR k => shortScalar cp k tape
+        | .shortXR k => let (t, tp) := shortScalar cp k tape; ((t + (cp.order - x % cp.order)) % cp.order, tp)
         | _ => scalarRandom cp tape
       let rc := match st with
         | .wrongCommit which => if which.contains i then (r + 1) % cp.order else r
